@@ -81,8 +81,13 @@ class PageFeatureProcessor:
         # --- Logic from DocumentService.apply_pagination_borders ---
 
         # 1. First Page Logic
-        has_column_headers = (
-            document.rtf_column_header and len(document.rtf_column_header) > 0
+        # A header row is rendered only for a header that has text of its own or,
+        # for a single body with as_colheader, gets the column names as text.
+        auto_header_text = bool(getattr(document.rtf_body, "as_colheader", False))
+        has_column_headers = any(
+            header is not None
+            and (getattr(header, "text", None) is not None or auto_header_text)
+            for header in (document.rtf_column_header or [])
         )
 
         # If first page, NO headers, apply PAGE border_first to top of body
